@@ -159,6 +159,7 @@ def dbg_value(text, observed):
 
 FIXED = {
     'storage-classes': '''DECLARE SUB cnt (d%, w AS LONG)
+DECLARE SUB shadow (g%, top!)
 DIM SHARED g%
 DIM SHARED ga(2) AS LONG
 CONST k = 5
@@ -171,7 +172,14 @@ PRINT g%; ga(1); k; ks$; top!; top! / 3; q&
 cnt 2, q&
 cnt 3, q&
 PRINT g%; q&; top! * k
+shadow 42, 0.5
+PRINT g%; top!
 END
+SUB shadow (g%, top!)
+  PRINT g%; top!; g% + top!; k
+  g% = g% + 1
+  PRINT g%
+END SUB
 SUB cnt (d%, w AS LONG)
   STATIC n%
   STATIC m AS LONG
@@ -495,6 +503,8 @@ def _session(seed, O, text, ast, probes, text_probes):
             answers.append(ask('item', e['x'] if e['k'] == 'txt' else gen.expr_text(e), ln))
         if rng.random() < 0.4:
             ask('unknown', 'zzq9%', ln)
+            if fixed and seed == 'storage-classes':
+                ask('unknown', 'k(1)', ln)          # a subscripted constant: not a value, must be reported
             arrs = []
             arrays_in(probes[ln], arrs)
             for a in arrs[:1]:
